@@ -398,16 +398,18 @@ pub fn truncate_and_round(
     if max_digits >= digit_count {
         return (digit_count, false);
     }
+    // Need to add the number of leading zeros to the digits `digit_count`.
+    let max_digits = {
+        let digits = &buffer[start..end];
+        max_digits + ltrim_char_count(digits, b'0')
+    };
+    if max_digits >= digit_count {
+        return (digit_count, false);
+    }
     if options.round_mode() == RoundMode::Truncate {
         // Don't round input, just shorten number of digits emitted.
         return (max_digits, false);
     }
-
-    // Need to add the number of leading zeros to the digits `digit_count`.
-    let max_digits = {
-        let digits = &mut buffer[start..start + max_digits];
-        max_digits + ltrim_char_count(digits, b'0')
-    };
 
     // We need to round-nearest, tie-even, so we need to handle
     // the truncation **here**. If the representation is above
